@@ -25,7 +25,7 @@ COMPONENTS = {"real": ["binary diff encoder (binarydiff.c)", "archive writer/rea
               "simulated": ["snapshot-instant observer (fopen seam)", "wall clock incl. jumps", "heap placement (hostile allocator: garbage fill, always-move realloc, poison)"]}
 ASSUMPTIONS = ["the serialiser is idempotent (calling it from the fopen observer right before the library calls it does not change what the library writes)",
                "callbacks are re-attached to every loaded snapshot before it is compared (field 87 records only whether any callback is set)"]
-PROBES = ["vanished_field_history", "grew_past_128", "N_dropped_to_zero", "reopened", "auto_step_snapshots", "auto_interval_snapshots", "merge_changed_N", "op_raised", "returned_to_first_snapshot_time", "switched_to_new_archive_file"]
+PROBES = ["vanished_field_history", "grew_past_128", "N_dropped_to_zero", "reopened", "auto_step_snapshots", "auto_interval_snapshots", "merge_changed_N", "op_raised", "returned_to_first_snapshot_time", "switched_to_new_archive_file", "archive_with_more_than_1024_snapshots", "archive_with_more_than_2048_snapshots"]
 
 INTEGS = ["ias15", "whfast", "saba", "eos", "leapfrog", "janus", "mercurius", "trace", "bs", "sei", "none"]
 SETS = [("softening", [0.0, 1e-3]), ("exit_max_distance", [0.0, 500.0]), ("ri_ias15.epsilon", [1e-9, 1e-7]), ("ri_ias15.adaptive_mode", [0, 1, 2, 3]),
@@ -65,6 +65,10 @@ def generate(rng, tier, index):
         v = o.randint(1, 4) if auto == "step" else abs(cfg["dt"]) * o.choice([1.0, 2.5, 4.0])
         ops += [dict(op="arm", kind=auto, value=v), dict(op="integrate", span=abs(cfg["dt"]) * o.choice([3.3, 7.0]), exact=o.choice([None, 0, 1])),
                 dict(op="new_file"), dict(op="integrate", span=abs(cfg["dt"]) * o.choice([3.3, 7.0]), exact=o.choice([None, 0, 1]))]
+    if integ in ("leapfrog", "whfast", "saba", "janus", "eos") and not merge and rng.derive("big").chance(0.015 if tier == "quick" else 0.03):
+        # an archive with thousands of snapshots: the reader's index has to grow beyond its initial capacity, several times
+        ops += [dict(op="arm", kind="step", value=1), dict(op="integrate", span=abs(cfg["dt"]) * rng.derive("big").randint(1030, 2300), exact=0)]
+        auto = "step"
     for i in range(nops):
         kind = o.weighted([("steps", 26), ("integrate", 10), ("snapshot", 24), ("add", 8), ("add_many", 1.5), ("remove", 8), ("remove_hash", 3),
                            ("remove_all", 2), ("switch", 6), ("reset_integrator", 4), ("set", 6), ("add_variation", 2), ("megno", 1),
@@ -343,6 +347,10 @@ def execute(case, ctx):
         except RuntimeError as e:
             viol("archive", "archive unreadable after a fault-free history", "%d snapshots written: %s" % (len(model), e))
             return result
+    if len(model) > 1024:
+        probe("archive_with_more_than_1024_snapshots")
+    if len(model) > 2048:
+        probe("archive_with_more_than_2048_snapshots")
     if sa.nblobs != len(model):
         viol("archive", "wrong snapshot count", "written %d, archive reports %d (warnings: %s)" % (len(model), sa.nblobs, q.messages[:2]), key="archive:count")
         return result
